@@ -4,7 +4,7 @@
 (* (Grp) and every recorded return value is compared with the set formulas  *)
 (* of StabSem.  Pivot choice, row order of standby rows and destabilizer     *)
 (* phases are not compared.                                                  *)
-EXTENDS StabSem, Clifford, TraceBase, FiniteSets
+EXTENDS StabSem, Clifford, GaussMat, TraceBase, FiniteSets
 
 TRows(t) == DecRows(t.rows)
 TOK(t)  == /\ \A j \in 1..Len(t.rows) : WellFormed(t.rows[j], Len(t.rows[j]) - 1)
@@ -69,7 +69,7 @@ QueryFrameOK == (Rec.op \in {"expect", "expect_poly", "overlap", "prob", "entrop
     /\ Has("other1") => Rec.other1 = Rec.other
 \* explicit refusals are not reported values
 \* (the only documented refusal among the queries: a state argument on a mixed receiver)
-RefuseOK == Has("refused") => (Rec.refused = "NotImplementedError" /\ Has("mixed_receiver") /\ Rec.mixed_receiver = TRUE)
+RefuseOK == (Has("refused") /\ Rec.op # "fromstab") => (Rec.refused = "NotImplementedError" /\ Has("mixed_receiver") /\ Rec.mixed_receiver = TRUE)
 
 \* ---- C08: entropy
 EntropyOK == (Rec.op = "entropy" /\ Has("vals")) =>
@@ -124,5 +124,33 @@ WalkOK == (Rec.op = "walk" /\ Has("entries")) => WalkFrom(Rec.pre, Rec.entries, 
 CtorGroup(name, n) == CASE name = "zero" -> ZeroGroup(n) [] name = "one" -> OneGroup(n)
                         [] name = "ghz" -> GHZGroup(n) [] name = "mixed" -> MixedGroup(n)
 CtorOK == (Rec.op = "ctor" /\ Has("post")) => TGrp(Rec.post) = CtorGroup(Rec.name, Rec.n) /\ Rec.post.r = (IF Rec.name = "mixed" THEN Rec.n ELSE 0)
+\* map -> state: rows are the Z-images (stabilizers) then the X-images (destabilizers), signs included;
+\* the state is the map applied to |0..0>; state -> map gives the same map back
+MapToRows(mm) == LET n == Len(mm) \div 2 IN [j \in 1..2 * n |-> IF j <= n THEN mm[2 * j] ELSE mm[2 * (j - n) - 1]]
+ToStateOK == (Rec.op = "tostate" /\ Has("post")) =>
+    LET mm == DecM(Rec.m)  n == Len(mm) \div 2 IN
+    /\ TRows(Rec.post) = MapToRows(mm)
+    /\ Rec.post.r = Rec.rarg
+    /\ (Rec.rarg = 0) => TGrp(Rec.post) = {Apply(mm, s) : s \in ZeroGroup(n)}
+    /\ Has("back") => Rec.back = Rec.m
+\* random_bit_state: a computational basis state; random_pauli_state: a product of single-qubit stabilizer states
+ProductOK(S0, n, letters) == Cardinality(S0) = 2 ^ n /\ \A i \in 1..n : \E s \in S0 : Supp(s) = {i} /\ s.s[i] \in letters
+RandCtorOK == (Rec.op = "randctor" /\ Has("post")) =>
+    /\ TOK(Rec.post)
+    /\ Rec.name = "random_bit" => ProductOK(TGrp(Rec.post), Rec.n, {3}) /\ Rec.post.r = 0
+    /\ Rec.name = "random_pauli" => (Rec.rarg = 0 => ProductOK(TGrp(Rec.post), Rec.n, {1, 2, 3})) /\ Rec.post.r = Rec.rarg
+    /\ Rec.name = "random_clifford" => Rec.post.r = Rec.rarg
+\* dense export: 2^n * rho = SUM of the matrices of the group elements (entries are Gaussian integers)
+QutipOK == (Rec.op = "qutip" /\ Has("mat")) =>
+    LET n == Len(Rec.pre.rows) \div 2  R == MSum(TGrp(Rec.pre), n) IN
+    \A a \in 0..Dim(n) - 1 : \A b \in 0..Dim(n) - 1 : <<Rec.mat[a + 1][b + 1][1], Rec.mat[a + 1][b + 1][2]>> = R[a][b]
+\* stabilizer_state(list): projector onto the joint +1 eigenspace, rank 2^(n-L); anticommuting input is refused
+FromStabOK == Rec.op = "fromstab" =>
+    LET ops == DecL(Rec.stabs)  n == Rec.n
+        anti == \E i, j \in 1..Len(ops) : Anti(ops[i], ops[j]) IN
+    /\ anti => (Has("refused") /\ Rec.refused = "ValueError")
+    /\ (~anti) => /\ Has("post") /\ TOK(Rec.post)
+                  /\ TGrp(Rec.post) = Span(ops, n)
+                  /\ Rec.post.r = n - Len(ops)
 NoCrashS == ~Has("exc")
 =============================================================================
